@@ -91,7 +91,11 @@ Proof. intros fx p ff n st H. unfold start_sync_ff. rewrite H. reflexivity. Qed.
    harness/cmd/c06, crash right after ImportWallet). *)
 Definition before_ff_check : fixes :=
   {| f_removable := true; f_rollback := true; f_import_retry := true; f_start_reorg := true; f_rollback_order := true;
-     f_import_tipcheck := false; f_removable_debit := true; f_ff_check := false |}.
+     f_import_tipcheck := false; f_removable_debit := true; f_ff_check := false; f_keystore_undo := true |}.
+(* ... and with that check (the code in /repo right before this repair) *)
+Definition tipcheck_no_ff_check : fixes :=
+  {| f_removable := true; f_rollback := true; f_import_retry := true; f_start_reorg := true; f_rollback_order := true;
+     f_import_tipcheck := true; f_removable_debit := true; f_ff_check := false; f_keystore_undo := true |}.
 
 (* ---------------------------------------------------------------- the witness *)
 
